@@ -125,6 +125,15 @@ def gen_cases(rng, tier, scale):
                     cases.append(rcase(f'm{k}', tpl, DATA, pre=['macros', 'probes', 'esc 1', f'strict {strict}'], entry=4, kind='macro',
                                        name=name, args=args, hs=hs, strict=strict, tags=[name]))
                     k += 1
+    # a missing argument is missing wherever its path is resolved: relative to a COMPUTED context (with over a subexpression
+    # result) or through a block parameter bound to one — strict mode reports it, non-strict mode passes null
+    for name in ('m_json', 'm_str', 'm_null', 'm_i64', 'mo1'):
+        for strict in (0, 1):
+            for j, tpl in enumerate(['{{#with (m_ret_j o)}}{{%s zz}}{{/with}}', '{{#with (m_ret_j o) as |w|}}{{%s w.zz}}{{/with}}', '{{#with (id o) as |w|}}{{%s w.k.zz}}{{/with}}',
+                                     '{{#with (m_ret_j o)}}{{id (%s zz.y)}}{{/with}}', '{{#with o as |w|}}{{%s w.zz}}{{/with}}']):
+                cases.append(rcase(f'dv{k}', tpl % name, DATA, pre=['macros', 'probes', 'esc 1', f'strict {strict}'], entry=4, kind='macro',
+                                   name=name, args=('MISS',), hs={}, strict=strict, tags=['missing-under-derived-context']))
+                k += 1
     # *args / **kwargs / typed results / escaping of the written result
     fixed = [('{{margs 1 "a" o}}', 'args:u1,x61,{x6b:u1}'), ('{{margs}}', 'args:'), ('{{mkw z=1 a="s"}}', 'kw:x61=x73,x7a=u1'),
              ('{{mall 5 7 8 k=2 q=1}}', 'mall:5:2:3:2'), ('{{#if (m_ret_b s)}}T{{else}}F{{/if}}', 'T'), ('{{#if (m_ret_b i)}}T{{else}}F{{/if}}', 'F'),
